@@ -3,7 +3,7 @@
 // Injected as `#[cfg(kani)] mod verif_kani_asql_tok` INSIDE `pub mod parse { mod parser { .. } }`
 // (kani.toml: module_path) because `parser` is private to `parse`; the real methods are called.
 //
-// BOUNDED (kind = "bounded"): input strings of length <= MAXLEN over ALPHABET (spec.rs), every length,
+// BOUNDED (kind = "bounded"): input strings of length <= L over ALPHABET (spec.rs), every length,
 // every content, and EVERY wf cursor state (0 <= pos <= end <= len), one method call per harness.
 // That is the one-step inductive form of A1: from any wf state each method re-establishes wf and its
 // clause, so by induction every call sequence from `Parser::of` (pos = end = 0) does.
@@ -11,12 +11,11 @@
 
 include!("spec.rs");
 
-const MAXLEN: usize = 5;
-
-fn one_call(m: Method) {
-    let mut bytes = [b'a'; MAXLEN];
+/// quick tier: L = 4; thorough tier: L = 6 (kani.toml states the bound per harness)
+fn one_call<const L: usize>(m: Method) {
+    let mut bytes = [b'a'; L];
     let mut i = 0;
-    while i < MAXLEN {
+    while i < L {
         let k: u8 = kani::any();
         kani::assume((k as usize) < ALPHABET.len());
         bytes[i] = ALPHABET[k as usize];
@@ -25,7 +24,7 @@ fn one_call(m: Method) {
     let len: usize = kani::any();
     let pos: usize = kani::any();
     let end: usize = kani::any();
-    kani::assume(len <= MAXLEN);
+    kani::assume(len <= L);
     kani::assume(wf(pos, end, len));
     kani::cover!(true, "reach_one_call");
     // ASCII only, so every index is a char boundary and the bytes are valid UTF-8
@@ -44,18 +43,19 @@ fn one_call(m: Method) {
 
 // `Parser::of`: pos = end = 0, wf for every string
 #[kani::proof]
-#[kani::unwind(8)]
+#[kani::unwind(9)]
 fn asql_tok_of() {
-    let mut bytes = [b'a'; MAXLEN];
+    const L: usize = 6;
+    let mut bytes = [b'a'; L];
     let mut i = 0;
-    while i < MAXLEN {
+    while i < L {
         let k: u8 = kani::any();
         kani::assume((k as usize) < ALPHABET.len());
         bytes[i] = ALPHABET[k as usize];
         i += 1;
     }
     let len: usize = kani::any();
-    kani::assume(len <= MAXLEN);
+    kani::assume(len <= L);
     kani::cover!(true, "reach_of");
     let data: &str = unsafe { std::str::from_utf8_unchecked(&bytes[..len]) };
     let p = super::Parser::of(data);
@@ -63,18 +63,27 @@ fn asql_tok_of() {
 }
 
 macro_rules! asql_tok_harness {
-    ($name:ident, $m:expr) => {
+    ($name:ident, $l:expr, $u:expr, $m:expr) => {
         #[kani::proof]
-        #[kani::unwind(8)]
+        #[kani::unwind($u)]
         fn $name() {
-            one_call($m)
+            one_call::<$l>($m)
         }
     };
 }
-asql_tok_harness!(asql_tok_take, Method::Take);
-asql_tok_harness!(asql_tok_peek_word, Method::PeekWord);
-asql_tok_harness!(asql_tok_eat_word, Method::EatWord);
-asql_tok_harness!(asql_tok_peek_one, Method::PeekOne);
-asql_tok_harness!(asql_tok_eat_one, Method::EatOne);
-asql_tok_harness!(asql_tok_peek_quoted, Method::PeekQuoted);
-asql_tok_harness!(asql_tok_eat_quoted, Method::EatQuoted);
+// quick tier: strings of length <= 4 (unwind 6 = L + 2: the longest tokenizer loop makes L + 1 iterations)
+asql_tok_harness!(asql_tok_take, 4, 6, Method::Take);
+asql_tok_harness!(asql_tok_peek_word, 4, 6, Method::PeekWord);
+asql_tok_harness!(asql_tok_eat_word, 4, 6, Method::EatWord);
+asql_tok_harness!(asql_tok_peek_one, 4, 6, Method::PeekOne);
+asql_tok_harness!(asql_tok_eat_one, 4, 6, Method::EatOne);
+asql_tok_harness!(asql_tok_peek_quoted, 4, 6, Method::PeekQuoted);
+asql_tok_harness!(asql_tok_eat_quoted, 4, 6, Method::EatQuoted);
+// thorough tier: strings of length <= 6
+asql_tok_harness!(asql_tok_take_l6, 6, 8, Method::Take);
+asql_tok_harness!(asql_tok_peek_word_l6, 6, 8, Method::PeekWord);
+asql_tok_harness!(asql_tok_eat_word_l6, 6, 8, Method::EatWord);
+asql_tok_harness!(asql_tok_peek_one_l6, 6, 8, Method::PeekOne);
+asql_tok_harness!(asql_tok_eat_one_l6, 6, 8, Method::EatOne);
+asql_tok_harness!(asql_tok_peek_quoted_l6, 6, 8, Method::PeekQuoted);
+asql_tok_harness!(asql_tok_eat_quoted_l6, 6, 8, Method::EatQuoted);
